@@ -346,6 +346,13 @@ def gen_case(rng, tier, kind=None, dtype=None):
     hi = L if L < 100 else rng.choice([100, min(120, L), L])
     st = [rng.randint(0, hi - 1) for _ in range(k)]
     en = [rng.randint(s_ + 1, hi) for s_ in st]
+    if rng.random() < 0.15 and hi >= 2:
+        # consecutive, non-empty windows given by one offsets vector (offsets[:-1], offsets[1:]); inner bounds often coincide with run boundaries.
+        # (Empty windows are left out: a ragged run-length array cannot hold an empty row -- the current tree refuses to decode one -- so there is
+        # no behaviour to hold a changed tree against.)
+        offs = sorted(set([0] * (rng.random() < 0.7) + [rng.randint(0, hi) for _ in range(k)] + [hi] * (rng.random() < 0.7)))
+        if len(offs) >= 2:
+            st, en = offs[:-1], offs[1:]
     fits = [d for d in gen.NP_INTS if max(en) <= np.iinfo(d).max]
     return mk_case(dtype, vals, "windows", [st, en], vdtype=rng.choice(fits + ["int64"]), readonly=rng.random() < 0.2)
 
